@@ -30,14 +30,18 @@ pub struct Case {
 	pub order2: Vec<u16>,
 	/// 0 well-formed, 1 no root, 2 two roots, 3 cycle through the root, 4 cycle below the root, 5 version only reachable from an undeclared parent, 6 unknown version queried
 	pub malformed: u8,
+	/// malformed == 4: further edges between arbitrary non-root versions (each with the true diff between the two versions);
+	/// they may close cycles of any length with any number of entry points, or leave the graph acyclic
+	#[serde(default)]
+	pub extra: Vec<(u16, u16)>,
 }
 
 fn strategy() -> impl Strategy<Value = Case> {
 	let cfg = GenCfg { ns_min: 2, ns_max: 2, p_missing: 0, style: TargetStyle::Simple, param_src_names: false, max_classes: 5, p_nested: 45, ..GenCfg::default() };
 	let node = (proptest::collection::vec(any::<u16>(), 1..3), prop_oneof![2 => Just(false), 1 => Just(true)], draws()).prop_map(|(parents, split_name, edits)| Node { parents, split_name, edits });
-	(mapset(cfg), proptest::collection::vec(node, 1..8), proptest::collection::vec(any::<u16>(), 24), proptest::collection::vec(any::<u16>(), 24), prop_oneof![5 => Just(0u8), 1 => 1u8..7]).prop_map(|(mut root, nodes, order1, order2, malformed)| {
+	(mapset(cfg), proptest::collection::vec(node, 1..8), proptest::collection::vec(any::<u16>(), 24), proptest::collection::vec(any::<u16>(), 24), prop_oneof![5 => Just(0u8), 1 => 1u8..7, 1 => Just(4u8)], proptest::collection::vec(any::<(u16, u16)>(), 0..4)).prop_map(|(mut root, nodes, order1, order2, malformed, extra)| {
 		root.ns = vec!["calamus".into(), "named".into()];
-		Case { root, nodes, order1, order2, malformed }
+		Case { root, nodes, order1, order2, malformed, extra }
 	})
 }
 
@@ -151,9 +155,47 @@ fn check(case: &Case, obs: &mut Obs) -> PropResult {
 		4 if n >= 3 => {
 			// an edge from a node back to one of its ancestors (not the root)
 			let (p, c) = built.edges[built.edges.len() - 1];
-			if p != 0 {
+			if p != 0 && case.extra.is_empty() {
 				files.push((format!("{}#{}.tinydiff", built.names[c], built.names[p]), "tiny\t2\t0\n".into()));
 				must_fail_resolve = true;
+			}
+			// general form: extra edges with true diffs; the oracle is an independent topological sort
+			let mut edges = built.edges.clone();
+			for (x, y) in &case.extra {
+				let (a, b) = (1 + idx(*x, n - 1), 1 + idx(*y, n - 1));
+				if a == b || edges.contains(&(a, b)) {
+					continue;
+				}
+				let Some(d) = refops::diff(&built.contracted[a], &built.contracted[b]) else { continue };
+				files.push((format!("{}#{}.tinydiff", built.names[a], built.names[b]), text::tinydiff(&d, 0)));
+				edges.push((a, b));
+			}
+			if edges.len() > built.edges.len() {
+				let mut indeg = vec![0usize; n];
+				for (_, c) in &edges {
+					indeg[*c] += 1;
+				}
+				let mut ready: Vec<usize> = (0..n).filter(|k| indeg[*k] == 0).collect();
+				let mut sorted = 0;
+				while let Some(k) = ready.pop() {
+					sorted += 1;
+					for (p, c) in &edges {
+						if *p == k {
+							indeg[*c] -= 1;
+							if indeg[*c] == 0 {
+								ready.push(*c);
+							}
+						}
+					}
+				}
+				if sorted < n {
+					must_fail_resolve = true;
+					let on_cycle = (0..n).filter(|k| indeg[*k] > 0).count();
+					let entries = edges.iter().filter(|(p, c)| indeg[*p] == 0 && indeg[*c] > 0).map(|(_, c)| *c).collect::<std::collections::BTreeSet<_>>().len();
+					obs.label(format!("cycle:nodes_on_or_behind={},entry_points={}", on_cycle.min(5), entries.min(3)));
+				} else {
+					obs.label("extra_edges_acyclic:well_formed");
+				}
 			}
 		}
 		5 => {
